@@ -49,6 +49,8 @@ type Contracts struct {
 	Prober     common.Address // calldata addr : slot0=BALANCE slot1=EXTCODESIZE slot2=EXTCODEHASH
 	BlockHash  common.Address // calldata depth : slot0 = BLOCKHASH(NUMBER-depth)
 	Looper     common.Address // SSTORE(9,7) then loops until out of gas
+	Burner     common.Address // loops until out of gas without touching state
+	BlockHash2 common.Address // calldata depth : slot0 = BLOCKHASH(NUMBER-depth) | 1  (gas independent of the hash value)
 }
 
 // Kit is one chain fixture.
@@ -60,6 +62,8 @@ type Kit struct {
 	Addrs  []common.Address
 	C      Contracts
 	Signer types.Signer
+	// Senders bounds the key indices RandTx signs with (0 = all keys).
+	Senders int
 }
 
 func (k *Kit) Engine() consensus.Engine { return beacon.New(ethash.NewFaker()) }
@@ -129,9 +133,11 @@ var (
 		vm.PUSH0, vm.CALLDATALOAD, vm.SWAP1, vm.PUSH0, vm.CALLVALUE, vm.CREATE2, vm.PUSH0, vm.SSTORE, vm.STOP)
 	CodeProber = ops(vm.PUSH0, vm.CALLDATALOAD, vm.DUP1, vm.BALANCE, vm.PUSH0, vm.SSTORE,
 		vm.DUP1, vm.EXTCODESIZE, vm.PUSH1, 1, vm.SSTORE, vm.EXTCODEHASH, vm.PUSH1, 2, vm.SSTORE, vm.STOP)
-	CodeBlockHash = ops(vm.PUSH0, vm.CALLDATALOAD, vm.NUMBER, vm.SUB, vm.BLOCKHASH, vm.PUSH0, vm.SSTORE, vm.STOP)
-	CodeLooper    = ops(vm.PUSH1, 7, vm.PUSH1, 9, vm.SSTORE, vm.JUMPDEST, vm.PUSH1, 5, vm.JUMP)
-	CodeKV        = buildKV()
+	CodeBlockHash  = ops(vm.PUSH0, vm.CALLDATALOAD, vm.NUMBER, vm.SUB, vm.BLOCKHASH, vm.PUSH0, vm.SSTORE, vm.STOP)
+	CodeLooper     = ops(vm.PUSH1, 7, vm.PUSH1, 9, vm.SSTORE, vm.JUMPDEST, vm.PUSH1, 5, vm.JUMP)
+	CodeBurner     = ops(vm.JUMPDEST, vm.PUSH0, vm.JUMP)
+	CodeBlockHash2 = ops(vm.PUSH0, vm.CALLDATALOAD, vm.NUMBER, vm.SUB, vm.BLOCKHASH, vm.PUSH1, 1, vm.OR, vm.PUSH0, vm.SSTORE, vm.STOP)
+	CodeKV         = buildKV()
 )
 
 // buildKV assembles the key-value contract used to realise the abstract transactions of
@@ -220,7 +226,7 @@ func New(fork string, nkeys int, extra types.GenesisAlloc) *Kit {
 	}
 	k.C = Contracts{Counter: ctrAddr(1), Store: ctrAddr(2), Copier: ctrAddr(3), KV: ctrAddr(4), Caller: ctrAddr(5),
 		Delegator: ctrAddr(6), Destructor: ctrAddr(7), Reverter: ctrAddr(8), Factory: ctrAddr(9), Factory2: ctrAddr(10),
-		Prober: ctrAddr(11), BlockHash: ctrAddr(12), Looper: ctrAddr(13)}
+		Prober: ctrAddr(11), BlockHash: ctrAddr(12), Looper: ctrAddr(13), Burner: ctrAddr(14), BlockHash2: ctrAddr(15)}
 	one := big.NewInt(1)
 	st := func(kv ...int64) map[common.Hash]common.Hash {
 		m := map[common.Hash]common.Hash{}
@@ -242,6 +248,8 @@ func New(fork string, nkeys int, extra types.GenesisAlloc) *Kit {
 	alloc[k.C.Prober] = types.Account{Code: CodeProber, Nonce: 1, Balance: one}
 	alloc[k.C.BlockHash] = types.Account{Code: CodeBlockHash, Nonce: 1, Balance: one}
 	alloc[k.C.Looper] = types.Account{Code: CodeLooper, Nonce: 1, Balance: one}
+	alloc[k.C.Burner] = types.Account{Code: CodeBurner, Nonce: 1, Balance: one}
+	alloc[k.C.BlockHash2] = types.Account{Code: CodeBlockHash2, Nonce: 1, Balance: one, Storage: st(0, 1)}
 	// system contracts
 	alloc[params.BeaconRootsAddress] = types.Account{Nonce: 1, Code: params.BeaconRootsCode, Balance: common.Big0}
 	if k.AtLeast("prague") {
@@ -343,7 +351,11 @@ func (k *Kit) anyAddr(r *rand.Rand) common.Address {
 
 // RandTx draws one transaction intent.
 func (k *Kit) RandTx(r *rand.Rand) TxSpec {
-	sp := TxSpec{From: r.Intn(len(k.Keys)), Value: new(big.Int), Gas: 3_000_000, Tip: int64(1 + r.Intn(5)), AuthKey: -1}
+	ns := len(k.Keys)
+	if k.Senders > 0 && k.Senders < ns {
+		ns = k.Senders
+	}
+	sp := TxSpec{From: r.Intn(ns), Value: new(big.Int), Gas: 3_000_000, Tip: int64(1 + r.Intn(5)), AuthKey: -1}
 	sp.Legacy = r.Intn(5) == 0
 	to := func(a common.Address) { sp.To = &a }
 	switch c := r.Intn(100); {
@@ -405,7 +417,7 @@ func (k *Kit) RandTx(r *rand.Rand) TxSpec {
 		sp.Data = k.payloadFor(r, k.C.Prober)
 	case c < 90:
 		sp.Kind = "blockhash"
-		to(k.C.BlockHash)
+		to([]common.Address{k.C.BlockHash, k.C.BlockHash2}[r.Intn(2)])
 		sp.Data = word(uint64(1 + r.Intn(4)))
 	case c < 92:
 		sp.Kind = "looper"
@@ -426,7 +438,7 @@ func (k *Kit) RandTx(r *rand.Rand) TxSpec {
 		if k.AtLeast("prague") && r.Intn(2) == 0 {
 			sp.Kind = "setcode"
 			sp.Legacy = false
-			sp.AuthKey = r.Intn(len(k.Keys))
+			sp.AuthKey = r.Intn(ns)
 			sp.AuthSelf = sp.AuthKey == sp.From
 			ts := []common.Address{k.C.Counter, k.C.Store, k.C.KV, {}}
 			t := ts[r.Intn(len(ts))]
